@@ -935,6 +935,9 @@ func genC19(g *Gen) error {
 	sort.Slice(rp, func(i, j int) bool { return rp[i][0] < rp[j][0] })
 	g.PairList("requiredPrivileges", rp)
 	genC19Flows(g, p, routes)
+	if err := genC19Wide(g); err != nil {
+		return err
+	}
 	g.Footer()
 	return nil
 }
